@@ -1,10 +1,191 @@
 import Model.Common.Proto
-open Btc
+import Model.Common.HashProto
+import Model.C13.Gf256
+import Model.C13.Shamir
+import Model.C13.Bits
+import Model.C13.Bip39
+import Model.C13.Slip39
+import Generated.Slip39
+import Generated.Mnemonic
+open Btc Btc.C13
 
 /-- line protocol of property C13: see harness/c13.py -/
-def handle : List String → String
-  -- one line per generated module this driver serves, e.g.
-  -- | "gen" :: "VarInt" :: fn :: args => (Gen.VarInt.dispatch fn args).getD "bad-op"
+
+def natList? (s : String) : Option (List Nat) :=
+  if s == "_" then some [] else (s.splitOn ",").mapM (·.toNat?)
+
+def showNats (l : List Nat) : String :=
+  if l.isEmpty then "_" else ",".intercalate (l.map toString)
+
+def bits? (s : String) : Option Bits :=
+  if s == "_" then some [] else
+  s.toList.mapM fun c => if c == '0' then some false else if c == '1' then some true else none
+
+def showBits (b : Bits) : String :=
+  if b.isEmpty then "_" else String.ofList (b.map fun x => if x then '1' else '0')
+
+def bool? (s : String) : Option Bool :=
+  if s == "1" then some true else if s == "0" then some false else none
+
+def gfVec (b : Bytes) : List GF256 := b.map GF256.ofByte
+def gfBytes (v : List GF256) : Bytes := v.map GF256.toByte
+
+/-- `x:hex` -/
+def point? (s : String) : Option (GF256 × List GF256) :=
+  match s.splitOn ":" with
+  | [x, h] => do
+    let x ← x.toNat?
+    let b ← fromHex? h
+    if x < 256 then some (GF256.ofNat x, gfVec b) else none
+  | _ => none
+
+def okHexList (l : List Bytes) : String := "ok " ++ " ".intercalate (l.map toHex)
+
+def share? : List String → Option ByteShare
+  | [id, ext, e, gi, gt, g, mi, mt, v] => do
+    some { identifier := ← id.toNat?, extendable := ← bool? ext, iterationExponent := ← e.toNat?,
+           groupIndex := ← gi.toNat?, groupThreshold := ← gt.toNat?, groupCount := ← g.toNat?,
+           memberIndex := ← mi.toNat?, memberThreshold := ← mt.toNat?, value := ← fromHex? v }
+  | _ => none
+
+def showShare (s : ByteShare) : String :=
+  s!"{s.identifier} {if s.extendable then 1 else 0} {s.iterationExponent} {s.groupIndex} {s.groupThreshold} " ++
+  s!"{s.groupCount} {s.memberIndex} {s.memberThreshold} {toHex s.value}"
+
+def hmac256 : Bytes → Bytes → Bytes := hmacSha256
+
+def handle (toks : List String) : String :=
+  match hashOp toks with
+  | some r => r
+  | none =>
+  match toks with
+  | "gen" :: "Slip39" :: fn :: args => (Gen.Slip39.dispatch fn args).getD "bad-op"
+  | "gen" :: "Mnemonic" :: fn :: args => (Gen.Mnemonic.dispatch fn args).getD "bad-op"
+  | ["gf.mul", a, b] =>
+    match a.toNat?, b.toNat? with
+    | some a, some b => if a < 256 ∧ b < 256 then s!"ok {tmul a b} {clmul a b}" else "bad-op"
+    | _, _ => "bad-op"
+  | ["gf.div", a, b] =>
+    match a.toNat?, b.toNat? with
+    | some a, some b => if a < 256 ∧ b < 256 then s!"ok {tdiv a b}" else "bad-op"
+    | _, _ => "bad-op"
+  | "slip39.interp" :: x :: pts =>
+    match x.toNat?, pts.mapM point? with
+    | some x, some pts => "ok " ++ toHex (gfBytes (interpolate gf256Ops pts (GF256.ofNat x)))
+    | _, _ => "bad-op"
+  | "slip39.split" :: t :: n :: secret :: rp :: rnd =>
+    match t.toNat?, n.toNat?, fromHex? secret, fromHex? rp, rnd.mapM fromHex? with
+    | some t, some n, some secret, some rp, some rnd =>
+      let ds := digestWith hmac256 rp secret ++ rp
+      match splitSecret gf256Ops t n (gfVec secret) (rnd.map gfVec) (gfVec ds) with
+      | .ok shares => okHexList (shares.map gfBytes)
+      | .error _ => "err value"
+    | _, _, _, _, _ => "bad-op"
+  | "slip39.recover" :: t :: pts =>
+    match t.toNat?, pts.mapM point? with
+    | some t, some pts =>
+      match recoverSecret gf256Ops (digestGF hmac256) t pts with
+      | .ok s => "ok " ++ toHex (gfBytes s)
+      | .error _ => "err value"
+    | _, _ => "bad-op"
+  | ["slip39.polymod", vs] =>
+    match natList? vs with
+    | some vs => s!"ok {polymod vs}"
+    | none => "bad-op"
+  | ["slip39.checksum", ext, idx] =>
+    match bool? ext, natList? idx with
+    | some ext, some idx => "ok " ++ showNats (rsChecksum idx ext)
+    | _, _ => "bad-op"
+  | ["slip39.verify", ext, idx] =>
+    match bool? ext, natList? idx with
+    | some ext, some idx => if rsVerify idx ext then "ok True" else "ok False"
+    | _, _ => "bad-op"
+  | "slip39.encode" :: rest =>
+    match share? rest with
+    | some s => match shareIndexes s with
+      | some idx => "ok " ++ showNats idx
+      | none => "err value"
+    | none => "bad-op"
+  | ["slip39.decode", idx] =>
+    match natList? idx with
+    | some idx => match shareFromIndexes idx with
+      | .ok s => "ok " ++ showShare s
+      | .error _ => "err value"
+    | none => "bad-op"
+  | ["slip39.feistel", dir, pass, e, id, ext, payload] =>
+    match bool? dir, fromHex? pass, e.toNat?, id.toNat?, bool? ext, fromHex? payload with
+    | some dec, some pass, some e, some id, some ext, some payload =>
+      -- hashlib.pbkdf2_hmac refuses dklen = 0 (ValueError): an empty right half is not a call the model's PBKDF2 errs on
+      if payload.isEmpty then "err foreign" else
+      match feistel (roundFunction pass e id ext) payload dec with
+      | some r => "ok " ++ toHex r
+      | none => "err foreign"
+    | _, _, _, _, _, _ => "bad-op"
+  | ["slip39.master", pass, sentences] =>
+    match fromHex? pass, (sentences.splitOn ";").mapM natList? with
+    | some pass, some ss =>
+      match masterSecret hmac256
+          (fun first => roundFunction pass first.iterationExponent first.identifier first.extendable) ss with
+      | .ok ms => "ok " ++ toHex ms
+      | .error _ => "err value"
+    | _, _ => "bad-op"
+  | ["entropy.to_idx", bits, base] =>
+    match bits? bits, base.toNat? with
+    | some bits, some base =>
+      if base < 2 then "bad-op" else if bits.isEmpty then "err value" else "ok " ++ showNats (indexesFromBits bits base)
+    | _, _ => "bad-op"
+  | ["entropy.from_idx", idx, base] =>
+    match natList? idx, base.toNat? with
+    | some idx, some base => match bitsFromIndexes idx base with
+      | some b => "ok " ++ showBits b
+      | none => "err value"
+    | _, _ => "bad-op"
+  | ["bip39.idx", _lang, bits] =>
+    match bits? bits with
+    | some bits => match bip39Indexes sha256 bits with
+      | some idx => "ok " ++ showNats idx
+      | none => "err value"
+    | none => "bad-op"
+  | ["bip39.entropy", _lang, idx] =>
+    match natList? idx with
+    | some idx => match bip39Entropy sha256 idx with
+      | some b => "ok " ++ showBits b
+      | none => "err value"
+    | none => "bad-op"
+  | ["bip39.seed", sentence, pass] =>
+    match fromHex? sentence, fromHex? pass with
+    | some s, some p => "ok " ++ toHex (bip39Seed s p)
+    | _, _ => "bad-op"
+  | ["electrum.seed", sentence, pass, _orig, _origPass] =>
+    match fromHex? sentence, fromHex? pass with
+    | some s, some p => "ok " ++ toHex (electrumSeed s p)
+    | _, _ => "bad-op"
+  | ["electrum.type", isOld, sentence, nwords, _orig] =>
+    match bool? isOld, fromHex? sentence, nwords.toNat? with
+    | some o, some s, some n =>
+      let t := mnemonicType o (seedVersion hmacSha512 s) n
+      if t.isEmpty then "err value" else "ok " ++ t
+    | _, _, _ => "bad-op"
+  | ["electrum.idx", v, base, _lang] =>
+    match v.toNat?, base.toNat? with
+    | some v, some base => if base < 2 then "bad-op" else "ok " ++ showNats (electrumIndexes v base)
+    | _, _ => "bad-op"
+  | ["electrum.bits", idx, base, _lang] =>
+    match natList? idx, base.toNat? with
+    | some idx, some base => match electrumBits idx base with
+      | some b => "ok " ++ showBits b
+      | none => "err value"
+    | _, _ => "bad-op"
+  | ["bip85.entropy", key, _xprv, _path] =>
+    match fromHex? key with
+    | some k => "ok " ++ toHex (bip85Entropy hmacSha512 k)
+    | none => "bad-op"
+  | ["bip85.bip39", key, words, _xprv, _lang, _index] =>
+    match fromHex? key, words.toNat? with
+    | some k, some w => match bip85Bip39Indexes hmacSha512 sha256 k w with
+      | some idx => "ok " ++ showNats idx
+      | none => "err value"
+    | _, _ => "bad-op"
   | _ => "bad-op"
 
 def main : IO Unit := runLoop handle
